@@ -966,11 +966,15 @@ def run(ctx):
         "eigs with k larger than the Krylov dimension raises IndexError (counted, outside the property); termination of expmv is not a theorem (expmvLoop has fuel)",
     ]
     ctx.extra["yastn_path"] = yastn.__file__
+    ctx.notes.append("defects of the pinned yastn found by this check and recorded in known_findings.json: expmv livelock for ncv > min(30, size) "
+                     "(c18:expmv:livelock-ncv-above-ncvmax), ZeroDivisionError/OverflowError when tau_opt underflows (c18:expmv:tau-opt-underflow), "
+                     "non-unit result of expmv(hermitian=True, normalize=True) for large real t (c18:expmv:normalize-not-unit:lanczos), garbage Ritz pairs "
+                     "of eigs with ncv > dimension after an undetected breakdown (c18:eigs:krylov-beyond-dimension)")
     t0 = time.time()
     if ctx.quick:
         n_exp, n_eig, n_lin, budget = 300, 100, 80, 40
     else:
-        n_exp, n_eig, n_lin, budget = 2500, 900, 700, 600
+        n_exp, n_eig, n_lin, budget = 5000, 1800, 1400, 660
     contracts(ctx)
     fixed_cases(ctx)
     run_stream(ctx, "expmv", n_exp, t0 + 0.55 * budget, 3 if ctx.quick else 4)
